@@ -327,7 +327,7 @@ func genCase(rt *rapid.T) Case {
 	}
 	for i, k := 0, rapid.IntRange(1, 3).Draw(rt, "nimages"); i < k; i++ {
 		sz := rapid.SampledFrom([]int{64, 64, 64, 256, 63, 65, 32, 128}).Draw(rt, "imgsize")
-		s := imgen.Spec{Kind: rapid.SampledFrom([]string{"rgba", "gray", "ycbcr", "nrgba"}).Draw(rt, "imgkind"), W: sz, H: sz, Content: rapid.SampledFrom([]string{"noise", "smooth", "blocks"}).Draw(rt, "content"), Seed: rapid.Uint32().Draw(rt, "seed"), Ratio: "444"}
+		s := imgen.Spec{Kind: rapid.SampledFrom([]string{"rgba", "gray", "ycbcr", "nrgba"}).Draw(rt, "imgkind"), W: sz, H: sz, Content: rapid.SampledFrom([]string{"noise", "smooth", "blocks"}).Draw(rt, "content"), Seed: rapid.Uint32().Draw(rt, "seed"), Ratio: "444", Transp: rapid.IntRange(0, 2).Draw(rt, "transparent") == 0}
 		if rapid.IntRange(0, 5).Draw(rt, "nonsquare") == 0 {
 			s.H = rapid.SampledFrom([]int{1, 32, 63, 64, 100}).Draw(rt, "h")
 		}
